@@ -182,6 +182,7 @@ func vxAnyBinLog(h *LogHist, x float64) int       { return vx.Int("bin") }
 // C14: "Every Add to a LinearHist or LogHist increments exactly one counter".
 //
 //vx:solver z3-new
+//vx:timeout 90000
 //vx:stub stats.(*LinearHist).bin = vxAnyBinLinear
 //vx:bound 1..4 bins (quick) / 1..8 (thorough); all counters symbolic; bin index any int64 (assume-guarantee: bin() replaced by an arbitrary index)
 func VxC14_LinearConservation() {
@@ -215,6 +216,7 @@ func VxC14_LinearConservation() {
 // VxC14_LogConservation: the same for LogHist.
 //
 //vx:solver z3-new
+//vx:timeout 90000
 //vx:stub stats.(*LogHist).bin = vxAnyBinLog
 //vx:bound 1..4 bins (quick) / 1..8 (thorough); all counters symbolic; bin index any int64
 func VxC14_LogConservation() {
